@@ -334,6 +334,20 @@ theorem genFn_toNat (x : Vector UInt64 16) (hx : ∀ y ∈ x.toList, y.toNat < 2
   rw [urow_toNat, dot_scale]
   omega
 
+theorem udot_toNat_mod : ∀ cs xs : List UInt64,
+    (udot cs xs).toNat = dot (cs.map UInt64.toNat) (xs.map UInt64.toNat) % 2 ^ 64
+  | [], _ => by simp [udot, dot]
+  | _ :: _, [] => by simp [udot, dot]
+  | c :: cs, x :: xs => by
+    have ih := udot_toNat_mod cs xs
+    simp only [udot, List.map_cons, dot, UInt64.toNat_add, UInt64.toNat_mul, ih]
+    omega
+
+/-- lane `i` of the translated `generated_function`, for **all** 64-bit inputs, is `16 · Σⱼ M[i][j]·xⱼ` modulo `2^64` -/
+theorem genFn_mod (x : Vector UInt64 16) (i : Fin 16) :
+    (genFn x)[i].toNat = 16 * dot (mdsRow i) (x.toList.map UInt64.toNat) % 2 ^ 64 := by
+  rw [genFn_getElem, ← vec16_toList, udot_toNat_mod, urow_toNat, dot_scale]
+
 /-! ### (E) recombination, linear layer -/
 
 theorem z_small (q : Nat) (h : q < 2097152) : q * 4294967295 % 18446744073709551616 = q * 4294967295 :=
@@ -379,5 +393,319 @@ theorem limbHi_toNat (w : Nat) (hw : w < W) : (limbHi w).toNat = w / H := by
   unfold limbHi H
   unfold W at hw
   exact UInt64.toNat_ofNat_of_lt' (by unfold UInt64.size; omega)
+
+theorem forall_mem_toList {n : Nat} {p : Nat → Prop} (v : Vector Nat n) :
+    (∀ x ∈ v.toList, p x) ↔ ∀ (i : Nat) (h : i < n), p v[i] := by
+  constructor
+  · intro hx i h
+    apply hx
+    rw [← Vector.getElem_toList (by simpa using h)]
+    exact List.getElem_mem _
+  · intro hi x hx
+    obtain ⟨i, h, rfl⟩ := List.mem_iff_getElem.mp hx
+    rw [Vector.getElem_toList]
+    exact hi i (by simpa using h)
+
+theorem mds_getElem (s : State) (i : Nat) (h : i < 16) :
+    (mds_generated s)[i] =
+      mds_recombine (genFn (s.map limbLo))[(⟨i, h⟩ : Fin 16)].toNat (genFn (s.map limbHi))[(⟨i, h⟩ : Fin 16)].toNat := by
+  unfold mds_generated
+  simp only [Vector.getElem_ofFn]
+
+/-- the linear layer on any state of 64-bit words: every lane is a 64-bit word congruent to the circulant matrix row
+    applied to the raw words, and the recombination never overflows -/
+theorem mds_lane (s : State) (hs : ∀ (j : Nat) (h : j < 16), s[j] < W) (i : Nat) (h : i < 16) :
+    (mds_generated s)[i] < W ∧ (mds_generated s)[i] ≡ dot (mdsRow ⟨i, h⟩) s.toList [MOD Pn] ∧
+    mds_recombine_ok (genFn (s.map limbLo))[(⟨i, h⟩ : Fin 16)].toNat (genFn (s.map limbHi))[(⟨i, h⟩ : Fin 16)].toNat = true := by
+  have hs' := (forall_mem_toList (p := fun x => x < W) s).mpr hs
+  have elo : (s.map limbLo).toList.map UInt64.toNat = s.toList.map (· % H) := by
+    rw [Vector.toList_map, List.map_map]
+    exact List.map_congr_left (fun x _ => limbLo_toNat x)
+  have ehi : (s.map limbHi).toList.map UInt64.toNat = s.toList.map (· / H) := by
+    rw [Vector.toList_map, List.map_map]
+    exact List.map_congr_left (fun x hx => limbHi_toNat x (hs' x hx))
+  have hlo := genFn_toNat (s.map limbLo) (by
+    intro y hy
+    rw [Vector.toList_map] at hy
+    obtain ⟨z, _, rfl⟩ := List.mem_map.mp hy
+    rw [limbLo_toNat]; unfold H; omega) ⟨i, h⟩
+  have hhi := genFn_toNat (s.map limbHi) (by
+    intro y hy
+    rw [Vector.toList_map] at hy
+    obtain ⟨z, hz, rfl⟩ := List.mem_map.mp hy
+    rw [limbHi_toNat z (hs' z hz)]
+    have := hs' z hz
+    unfold H; unfold W at this; omega) ⟨i, h⟩
+  rw [elo] at hlo
+  rw [ehi] at hhi
+  rw [mds_getElem s i h, hlo.1, hhi.1]
+  obtain ⟨r1, r2, r3⟩ := mds_recombine_lin _ _ hlo.2 hhi.2
+  rw [dot_split] at r3
+  refine ⟨r1, ?_, r2⟩
+  rcases r3 with r3 | r3
+  · have := congrArg (· % Pn) r3
+    simp only [Nat.add_mul_mod_self_right] at this
+    exact this
+  · have := congrArg (· % Pn) r3
+    simp only [Nat.add_mul_mod_self_right] at this
+    exact this
+
+/-- addition with a canonical right operand `c ≤ 2P − 2^64` and an *arbitrary 64-bit* left operand is still exact
+    and canonical -/
+theorem add_noncanonical_left (a c : Nat) (ha : a < W) (hc : c ≤ 18446744065119617026) :
+    bfe_add a c = (a + c) % Pn ∧ bfe_add a c < Pn ∧ bfe_add_ok a c = true := by
+  unfold bfe_add bfe_add_ok W Pn at *
+  simp only [decide_eq_true_eq]
+  refine ⟨?_, ?_, by omega⟩
+  · split <;> omega
+  · split <;> omega
+
+
+/-! ### (G) the round -/
+
+theorem nsl_eq : NUM_SPLIT_AND_LOOKUP = 4 := rfl
+
+theorem sbox_getElem (s : State) (i : Nat) (h : i < 16) :
+    (sbox_layer s)[i] = if i < 4 then split_and_lookup s[i] else pow7 s[i] := by
+  unfold sbox_layer
+  simp only [Vector.getElem_ofFn, nsl_eq, Fin.getElem_fin]
+  rfl
+
+theorem sbox_canon (s : State) (hs : ∀ (j : Nat) (h : j < 16), s[j] < Pn) (i : Nat) (h : i < 16) :
+    (sbox_layer s)[i] < Pn := by
+  rw [sbox_getElem s i h]
+  split
+  · exact split_and_lookup_canon _ (hs i h)
+  · exact (pow7_spec _ (hs i h)).1
+
+theorem spec_sbox_getElem (v : Vector Nat 16) (i : Nat) (h : i < 16) :
+    (TF.Spec.Tip5.sbox v)[i] = if i < 4 then TF.Spec.Tip5.sboxL v[i] else TF.Spec.Tip5.sboxP v[i] := by
+  unfold TF.Spec.Tip5.sbox
+  rw [Vector.getElem_ofFn]
+  rfl
+
+theorem sbox_value (s : State) (hs : ∀ (j : Nat) (h : j < 16), s[j] < Pn) :
+    (sbox_layer s).map bfe_value = TF.Spec.Tip5.sbox (s.map bfe_value) := by
+  apply Vector.ext
+  intro i h
+  rw [Vector.getElem_map, spec_sbox_getElem, Vector.getElem_map, sbox_getElem s i h]
+  split
+  · exact split_and_lookup_value _ (hs i h)
+  · rw [(pow7_spec _ (hs i h)).2]; unfold TF.Spec.Tip5.sboxP; rw [P_eq]
+
+theorem dot_mul_mod (w : Nat) : ∀ cs us : List Nat,
+    dot cs (us.map fun u => u * w % Pn) ≡ dot cs us * w [MOD Pn]
+  | [], _ => by simp [dot]; rfl
+  | _ :: _, [] => by simp [dot]; rfl
+  | c :: cs, u :: us => by
+    have ih := dot_mul_mod w cs us
+    simp only [List.map_cons, dot]
+    have h1 : c * (u * w % Pn) ≡ c * u * w [MOD Pn] := by
+      rw [Nat.mul_assoc]
+      exact (Nat.ModEq.refl c).mul (Nat.mod_modEq _ _)
+    rw [Nat.add_mul]
+    exact h1.add ih
+
+theorem map_value_eq (us : List Nat) (hus : ∀ u ∈ us, u < W) :
+    us.map bfe_value = us.map fun u => u * Winv % Pn :=
+  List.map_congr_left (fun u hu => value_eq u (hus u hu))
+
+/-- value of one output lane of a round, from the congruence of the linear layer -/
+theorem lane_value (m c rcv : Nat) (row us : List Nat) (hm : m ≡ dot row us [MOD Pn])
+    (hus : ∀ u ∈ us, u < W) (hc : c * Winv % Pn = rcv) :
+    ((m + c) % Pn * Winv) % Pn = (dot row (us.map bfe_value) + rcv) % Pn := by
+  rw [map_value_eq us hus]
+  have h1 : (m + c) % Pn * Winv ≡ (m + c) * Winv [MOD Pn] := (Nat.mod_modEq _ _).mul_right _
+  have h2 : (m + c) * Winv ≡ (dot row us + c) * Winv [MOD Pn] := (hm.add_right c).mul_right _
+  have h3 : (dot row us + c) * Winv = dot row us * Winv + c * Winv := Nat.add_mul _ _ _
+  have h4 : dot row us * Winv + c * Winv ≡ dot row (us.map fun u => u * Winv % Pn) + rcv [MOD Pn] := by
+    apply Nat.ModEq.add (dot_mul_mod Winv row us).symm
+    rw [← hc]
+    exact (Nat.mod_modEq _ _).symm
+  rw [h3] at h2
+  exact (h1.trans h2).trans h4
+
+theorem round_getElem (r : Fin 5) (s : State) (i : Nat) (h : i < 16) :
+    (round r s)[i] = bfe_add (mds_generated (sbox_layer s))[i] (roundConstant r ⟨i, h⟩) := by
+  unfold round
+  simp only [Vector.getElem_ofFn, Fin.getElem_fin]
+
+/-- one lane of one round on a canonical state: canonical result with the specification's value -/
+theorem round_lane (r : Fin 5) (s : State) (hs : ∀ (j : Nat) (h : j < 16), s[j] < Pn) (i : Nat) (h : i < 16) :
+    (round r s)[i] < Pn ∧
+    bfe_value (round r s)[i] =
+      (dot (mdsRow ⟨i, h⟩) ((sbox_layer s).toList.map bfe_value) + TF.Spec.Tip5.roundConstant r ⟨i, h⟩) % Pn := by
+  have hu : ∀ (j : Nat) (h : j < 16), (sbox_layer s)[j] < W :=
+    fun j hj => Nat.lt_trans (sbox_canon s hs j hj) Pn_lt_W
+  obtain ⟨m1, m2, _⟩ := mds_lane (sbox_layer s) hu i h
+  obtain ⟨k1, k2, k3⟩ := round_constants_all r ⟨i, h⟩
+  obtain ⟨a1, a2, _⟩ := add_noncanonical_left _ _ m1 k1
+  rw [round_getElem r s i h]
+  refine ⟨a2, ?_⟩
+  rw [value_eq _ (Nat.lt_trans a2 Pn_lt_W), a1]
+  apply lane_value _ _ _ _ _ m2 ((forall_mem_toList (p := fun x => x < W) _).mpr hu)
+  rw [← k3, value_eq _ (by unfold W; omega)]
+
+theorem round_canon (r : Fin 5) (s : State) (hs : ∀ (j : Nat) (h : j < 16), s[j] < Pn) :
+    ∀ (j : Nat) (h : j < 16), (round r s)[j] < Pn := fun j h => (round_lane r s hs j h).1
+
+theorem round_refines (r : Fin 5) (s : State) (hs : ∀ (j : Nat) (h : j < 16), s[j] < Pn) :
+    (round r s).map bfe_value = TF.Spec.Tip5.round r (s.map bfe_value) := by
+  apply Vector.ext
+  intro i h
+  rw [Vector.getElem_map, (round_lane r s hs i h).2]
+  unfold TF.Spec.Tip5.round
+  simp only [Vector.getElem_ofFn]
+  rw [← sbox_value s hs, Vector.toList_map]
+  rfl
+
+
+/-! ### (H) iteration -/
+
+/-- every word of the vector is canonical -/
+def CanonV {n : Nat} (v : Vector Nat n) : Prop := ∀ (j : Nat) (h : j < n), v[j] < Pn
+
+theorem fold_refines (rs : List (Fin 5)) (s : State) (hs : CanonV s) :
+    CanonV (rs.foldl (fun s r => round r s) s) ∧
+    (rs.foldl (fun s r => round r s) s).map bfe_value =
+      rs.foldl (fun v r => TF.Spec.Tip5.round r v) (s.map bfe_value) := by
+  induction rs generalizing s with
+  | nil => exact ⟨hs, rfl⟩
+  | cons r rs ih =>
+    simp only [List.foldl_cons]
+    rw [← round_refines r s hs]
+    exact ih (round r s) (round_canon r s hs)
+
+theorem traceFrom_refines (rs : List (Fin 5)) (s : State) (hs : CanonV s) :
+    (∀ t ∈ traceFrom rs s, CanonV t) ∧
+    (traceFrom rs s).map (fun t => t.map bfe_value) = TF.Spec.Tip5.traceFrom rs (s.map bfe_value) := by
+  induction rs generalizing s with
+  | nil => exact ⟨fun t ht => by simp [traceFrom] at ht, rfl⟩
+  | cons r rs ih =>
+    obtain ⟨i1, i2⟩ := ih (round r s) (round_canon r s hs)
+    constructor
+    · intro t ht
+      simp only [traceFrom, List.mem_cons] at ht
+      rcases ht with rfl | ht
+      · exact round_canon r s hs
+      · exact i1 t ht
+    · simp only [traceFrom, TF.Spec.Tip5.traceFrom, List.map_cons]
+      rw [i2, round_refines r s hs]
+
+theorem traceFrom_last (rs : List (Fin 5)) (s : State) :
+    (s :: traceFrom rs s).getLast (List.cons_ne_nil _ _) = rs.foldl (fun s r => round r s) s := by
+  induction rs generalizing s with
+  | nil => rfl
+  | cons r rs ih =>
+    simp only [traceFrom, List.foldl_cons]
+    rw [List.getLast_cons (List.cons_ne_nil _ _)]
+    exact ih (round r s)
+
+theorem traceFrom_length (rs : List (Fin 5)) (s : State) : (traceFrom rs s).length = rs.length := by
+  induction rs generalizing s with
+  | nil => rfl
+  | cons r rs ih => simp only [traceFrom, List.length_cons, ih]
+
+theorem value_one : bfe_value one = 1 := value_new 1 (by decide)
+theorem value_zero : bfe_value zero = 0 := value_new 0 (by decide)
+theorem one_canon : one < Pn := (new_spec 1 (by decide)).1
+theorem zero_canon : zero < Pn := (new_spec 0 (by decide)).1
+
+theorem fixedLengthState_canon (input : Vector Nat 10) (hi : CanonV input) : CanonV (fixedLengthState input) := by
+  intro j h
+  unfold fixedLengthState
+  rw [Vector.getElem_ofFn]
+  split
+  · exact hi j _
+  · exact one_canon
+
+theorem fixedLengthState_value (input : Vector Nat 10) :
+    (fixedLengthState input).map bfe_value =
+      Vector.ofFn fun i : Fin 16 => if h : i.val < 10 then (input.map bfe_value)[i.val] else 1 := by
+  apply Vector.ext
+  intro j h
+  unfold fixedLengthState
+  rw [Vector.getElem_map, Vector.getElem_ofFn, Vector.getElem_ofFn]
+  split
+  · rw [Vector.getElem_map]
+  · exact value_one
+
+theorem hash_10_refines (input : Vector Nat 10) (hi : CanonV input) :
+    CanonV (hash_10 input) ∧ (hash_10 input).map bfe_value = TF.Spec.Tip5.hash10 (input.map bfe_value) := by
+  obtain ⟨c, v⟩ := fold_refines (List.finRange 5) (fixedLengthState input) (fixedLengthState_canon input hi)
+  constructor
+  · intro j h
+    unfold hash_10
+    simp only [Vector.getElem_ofFn]
+    exact c j (by omega)
+  · apply Vector.ext
+    intro j h
+    unfold hash_10 TF.Spec.Tip5.hash10
+    simp only [Vector.getElem_map, Vector.getElem_ofFn]
+    have := congrArg (fun w : Vector Nat 16 => w[j]'(by omega)) v
+    simp only [Vector.getElem_map] at this
+    unfold permutation TF.Spec.Tip5.permutation
+    rw [this, fixedLengthState_value]
+    simp only [Vector.getElem_map]
+
+
+/-- `left ++ right` as the ten inputs of `hash_10` -/
+def pairInput (l r : Vector Nat 5) : Vector Nat 10 :=
+  Vector.ofFn fun i : Fin 10 => if h : i.val < 5 then l[i.val] else r[i.val - 5]
+
+theorem hash_pair_eq (l r : Vector Nat 5) : hash_pair l r = hash_10 (pairInput l r) := rfl
+theorem spec_hashPair_eq (l r : Vector Nat 5) : TF.Spec.Tip5.hashPair l r = TF.Spec.Tip5.hash10 (pairInput l r) := rfl
+
+theorem pairInput_canon (l r : Vector Nat 5) (hl : CanonV l) (hr : CanonV r) : CanonV (pairInput l r) := by
+  intro j h
+  unfold pairInput
+  rw [Vector.getElem_ofFn]
+  split
+  · exact hl j _
+  · exact hr _ _
+
+theorem pairInput_value (l r : Vector Nat 5) :
+    (pairInput l r).map bfe_value = pairInput (l.map bfe_value) (r.map bfe_value) := by
+  apply Vector.ext
+  intro j h
+  unfold pairInput
+  rw [Vector.getElem_map, Vector.getElem_ofFn, Vector.getElem_ofFn]
+  split <;> rw [Vector.getElem_map]
+
+theorem hash_pair_refines (l r : Vector Nat 5) (hl : CanonV l) (hr : CanonV r) :
+    CanonV (hash_pair l r) ∧
+    (hash_pair l r).map bfe_value = TF.Spec.Tip5.hashPair (l.map bfe_value) (r.map bfe_value) := by
+  rw [hash_pair_eq, spec_hashPair_eq, ← pairInput_value]
+  exact hash_10_refines _ (pairInput_canon l r hl hr)
+
+theorem zeros_canon : CanonV (Vector.replicate 5 zero) := by
+  intro j h
+  rw [Vector.getElem_replicate]
+  exact zero_canon
+
+theorem zeros_value : (Vector.replicate 5 zero).map bfe_value = Vector.replicate 5 0 := by
+  apply Vector.ext
+  intro j h
+  rw [Vector.getElem_map, Vector.getElem_replicate, Vector.getElem_replicate]
+  exact value_zero
+
+theorem digest_hash_refines (d : Vector Nat 5) (hd : CanonV d) :
+    CanonV (digest_hash d) ∧
+    (digest_hash d).map bfe_value = TF.Spec.Tip5.hashPair (d.map bfe_value) (Vector.replicate 5 0) := by
+  unfold digest_hash
+  rw [← zeros_value]
+  exact hash_pair_refines d _ hd zeros_canon
+
+/-- entering the model with `BFieldElement::new` of canonical values -/
+theorem new_canonV {n : Nat} (v : Vector Nat n) (hv : CanonV v) :
+    CanonV (v.map bfe_new) ∧ (v.map bfe_new).map bfe_value = v := by
+  constructor
+  · intro j h
+    rw [Vector.getElem_map]
+    exact (new_spec _ (Nat.lt_trans (hv j h) Pn_lt_W)).1
+  · apply Vector.ext
+    intro j h
+    rw [Vector.getElem_map, Vector.getElem_map]
+    exact value_new _ (hv j h)
 
 end TF.Tip5P
